@@ -414,6 +414,30 @@ Example C04_example_rebuild_with_plan_rerun :
   attached (KStep, ExR.u) (run_ops ExR.ops ExR.q) = false.
 Proof. exact ExR_example. Qed.
 
+(* Workflow.mark_step_pending and Executor._reset_step_to_pending, translated statement by statement (the
+   translator interprets the functions, so an if/else instead of an early return or a guarded debug log give the
+   same tables, while a changed effect gives another table and breaks this theorem by name):
+   effects 1 = set_state(PENDING), 2 = every BUILT output goes OUTDATED; RUNNING / CHECKING: nothing; PENDING: 1;
+   SUCCEEDED / FAILED: 1 then 2 -- which is what the model function does for a step in that state;
+   _reset_step_to_pending is one transaction reset_for_rerun; delete_hash; set_state(PENDING) = OpResetToPending. *)
+Theorem C04_pending_transactions_match_the_source :
+  (gen_mark_step_pending_table =
+   map (fun x => (sstate_code x, msp_effects x)) [SPending; SRunning; SSucceeded; SFailed; SChecking] /\
+   (forall fuel l s old, sstate_of l s = Some old ->
+      mark_step_pending_f (S fuel) l s =
+      match msp_effects old with
+      | [] => Ok s
+      | [_] => set_sstate l SPending false s
+      | _ => do s1 <- set_sstate l SPending false s;
+             foldM (fun s f => match fstate_of f s with
+                               | Some FBuilt => mark_file_outdated_f fuel f s
+                               | _ => Ok s end) (file_sinks_of_step l s1) s1
+      end)) /\
+  (gen_reset_to_pending_effects = [1; 2; 3] /\
+   (forall l s, step_op (OpResetToPending l) s =
+                (do s1 <- reset_for_rerun l s; set_sstate l SPending false (delete_hash l s1)))).
+Proof. exact (conj mark_step_pending_tie reset_to_pending_tie). Qed.
+
 (* Executor.try_skip_job when the check is OVERTAKEN (an input record was replaced while the step was
    CHECKING; translated structurally by gen_noop.py: gen_skip_overtaken_outcome): the step goes back to
    PENDING and keeps its stored hash (1), hence the next dispatch is a check again, not a command; the
